@@ -50,6 +50,7 @@ type FuncContract struct {
 	Ghost    []string
 	Unroll   int
 	Opts     map[string]string
+	tracked  []string
 }
 
 type SpecParam struct {
@@ -229,6 +230,10 @@ func parseContractFile(path, pkg string) (*ContractFile, error) {
 					cur.Opts[strings.TrimSpace(kv[0])] = "true"
 				}
 				continue
+			}
+			if strings.HasPrefix(t, "returnsite ") {
+				// an assertion checked at every return statement of the function, in that statement's scope
+				t = "callsite return " + strings.TrimSpace(t[11:])
 			}
 			if strings.HasPrefix(t, "callsite ") {
 				rest := strings.TrimSpace(t[9:])
